@@ -39,14 +39,15 @@ var Kinds = []string{"datadog", "influxdb1", "influxdb2", "newrelic-infra", "new
 	"graphite-tags", "graphite-basic", "graphite-legacy", "statsdaemon-udp", "statsdaemon-tcp", "cloudwatch", "stdout", "null"}
 
 type Opts struct {
-	BatchSize   int // metrics per batch (0 = backend default)
-	MaxRequests int // 0 = 2
-	MaxElapsed  time.Duration
-	Compress    bool
-	Disabled    map[string]bool // disabled-sub-metrics keys
-	DisableTags bool            // statsdaemon
-	ResourceKeys []string       // otlp
-	MaxRetries  int             // otlp (default 3; -1 = 0)
+	BatchSize    int // metrics per batch (0 = backend default)
+	MaxRequests  int // 0 = 2
+	MaxElapsed   time.Duration
+	ZeroElapsed  bool // the retry window is configured as 0 (explicitly), whatever MaxElapsed says
+	Compress     bool
+	Disabled     map[string]bool // disabled-sub-metrics keys
+	DisableTags  bool            // statsdaemon
+	ResourceKeys []string        // otlp
+	MaxRetries   int             // otlp (default 3; -1 = 0)
 }
 
 // Request is one captured HTTP request.
@@ -116,17 +117,31 @@ func (f *FakeRT) RoundTrip(req *http.Request) (*http.Response, error) {
 type FakeNet struct {
 	Dials    int
 	Writes   [][]byte
-	DialErr  func(n int) error          // nil = always connect
+	DialErr  func(n int) error           // nil = always connect
 	WriteErr func(n int, b []byte) error // nil = always ok; n = index of the write
-	Closed   int
+	// Stall (optional): the peer has stopped reading and this write does not make progress. It then ends the way a
+	// socket write does: with a timeout error when the connection's write deadline passes, never if none was set.
+	// Wait blocks the calling thread until the given instant (for ever for the zero time); the harness provides it.
+	Stall  func(n int) bool
+	Wait   func(until time.Time)
+	Closed int
 }
 
-type fakeConn struct{ n *FakeNet }
+type fakeConn struct {
+	n        *FakeNet
+	deadline time.Time // write deadline of this connection (zero: none)
+}
 
-func (c fakeConn) Read(b []byte) (int, error) { return 0, io.EOF }
-func (c fakeConn) Write(b []byte) (int, error) {
+var ErrWriteTimeout = errors.New("write tcp: i/o timeout")
+
+func (c *fakeConn) Read(b []byte) (int, error) { return 0, io.EOF }
+func (c *fakeConn) Write(b []byte) (int, error) {
 	i := len(c.n.Writes)
 	c.n.Writes = append(c.n.Writes, append([]byte{}, b...))
+	if c.n.Stall != nil && c.n.Stall(i) {
+		c.n.Wait(c.deadline)
+		return 0, ErrWriteTimeout
+	}
 	if c.n.WriteErr != nil {
 		if err := c.n.WriteErr(i, b); err != nil {
 			return 0, err
@@ -134,12 +149,12 @@ func (c fakeConn) Write(b []byte) (int, error) {
 	}
 	return len(b), nil
 }
-func (c fakeConn) Close() error                       { c.n.Closed++; return nil }
-func (c fakeConn) LocalAddr() net.Addr                { return &net.TCPAddr{} }
-func (c fakeConn) RemoteAddr() net.Addr               { return &net.TCPAddr{} }
-func (c fakeConn) SetDeadline(t time.Time) error      { return nil }
-func (c fakeConn) SetReadDeadline(t time.Time) error  { return nil }
-func (c fakeConn) SetWriteDeadline(t time.Time) error { return nil }
+func (c *fakeConn) Close() error                       { c.n.Closed++; return nil }
+func (c *fakeConn) LocalAddr() net.Addr                { return &net.TCPAddr{} }
+func (c *fakeConn) RemoteAddr() net.Addr               { return &net.TCPAddr{} }
+func (c *fakeConn) SetDeadline(t time.Time) error      { c.deadline = t; return nil }
+func (c *fakeConn) SetReadDeadline(t time.Time) error  { return nil }
+func (c *fakeConn) SetWriteDeadline(t time.Time) error { c.deadline = t; return nil }
 
 func (n *FakeNet) Dial() (net.Conn, error) {
 	i := n.Dials
@@ -149,7 +164,7 @@ func (n *FakeNet) Dial() (net.Conn, error) {
 			return nil, err
 		}
 	}
-	return fakeConn{n}, nil
+	return &fakeConn{n: n}, nil
 }
 
 // FakeCW is a fake CloudWatch API.
@@ -210,6 +225,9 @@ func New(kind string, o Opts) (*Built, error) {
 	elapsed := o.MaxElapsed
 	if elapsed == 0 {
 		elapsed = 15 * time.Second
+	}
+	if o.ZeroElapsed {
+		elapsed = 0
 	}
 	var b gostatsd.Backend
 	base := strings.SplitN(kind, "-", 2)[0]
